@@ -226,12 +226,14 @@ class Env:
             inherited = {f[0] for f in self.defs[base]["fields"]}
             fields = [f for f in fields if f[0] not in inherited]
         lines = []
-        if fl in ("dataclass", "dc_slots", "dc_kwonly", "dc_frozen"):
-            opts = {"dataclass": "", "dc_slots": "slots=True", "dc_kwonly": "kw_only=True", "dc_frozen": "frozen=True"}[fl]
+        if fl in ("dataclass", "dc_slots", "dc_kwonly", "dc_frozen", "dc_call"):
+            opts = {"dataclass": "", "dc_slots": "slots=True", "dc_kwonly": "kw_only=True", "dc_frozen": "frozen=True", "dc_call": ""}[fl]
             lines.append(f"@dataclasses.dataclass({opts})")
             lines.append(f"class {name}{bases}:")
             for fn, src, has_d, T in fields:
                 lines.append(f"    {fn}: {src}" + (f" = {dsrc[fn]}" if has_d else ""))
+            if fl == "dc_call":         # instances can be called: still a structured class
+                lines.append("    def __call__(self, *a):\n        return a")
         elif fl == "namedtuple":
             lines.append(f"class {name}(typing.NamedTuple):")
             for fn, src, has_d, T in fields:
@@ -295,7 +297,7 @@ class Env:
             raise ValueError(fl)
         if len(lines) == 2 and lines[-1].endswith(":"):
             lines.append("    pass")
-        if not fields and fl in ("dataclass", "dc_slots", "dc_kwonly", "dc_frozen", "namedtuple", "typeddict", "typeddict_nr", "typeddict_te"):
+        if not fields and fl in ("dataclass", "dc_slots", "dc_kwonly", "dc_frozen", "dc_call", "namedtuple", "typeddict", "typeddict_nr", "typeddict_te"):
             lines.append("    pass")
         return "\n".join(lines)
 
